@@ -82,6 +82,14 @@ def run(replay=None):
             rep.skip('rejected:' + o)
             continue
         events.append(record(text, decorate(p, rnd), 'parsed+metadata'))
+        if rnd.random() < (1.0 if thorough else 0.5):
+            # the same property with its disjunctions replaced by copies-with-changes of themselves (after they were used)
+            try:
+                pd = build.derive_disjunctions(p, ['zz1', 'zz2', 'zz3', 'zz4'])
+                if pd is not None:
+                    events.append(record(text + '   [first alternative of every disjunction moved to a new channel through but()]', pd, 'derived-disjunctions'))
+            except Exception as e:  # noqa
+                rep.skip('derive:' + exc_name(e))
         if rnd.random() < (1.0 if thorough else 0.3):
             # an EQUAL property (same text, new object) with other metadata: the result must carry ITS metadata
             o1, p1 = call_parser('property', text)
